@@ -285,6 +285,9 @@ def eval_part(case):
     n_rests = sum(1 for _ in part.iter_all(S.Rest))
     res.states = max(res.states, 1)
     res.nontrivial = bool(added and (pieces or n_rests))
+    if case.get("untied"):
+        # find_tuplets met an untyped note that has no plain or dotted value
+        res.nontrivial = any(M.plain_sym(n[1] - n[0], M.div_at(case["dv"], n[0])) is None for n in case["notes"])
     res.outcome = "part %s new=%s pieces=%s rests=%s" % (done if "!" in done else len(done), min(added, 3), min(pieces, 3), min(n_rests, 3))
     return res
 
@@ -713,6 +716,61 @@ def gen_runs(qs, orders, sh):
                                     yield c
 
 
+UNTIED_ORDERS = ["U", "AUTRS", "UATGS"]
+
+
+def gen_untied_runs(qs, lays, ks, dmax_q, offs, tails, orders, sh):
+    """find_tuplets run on notes that tie_notes has not split yet (directly on the part, or after
+    add_measures only): runs of k equal contiguous untyped notes, EVERY unit duration from one division
+    to dmax_q quarters - plain, dotted and tuplet values, values that need two to four tied values and
+    values longer than a bar -, after an offset, with an optional closing note (tails: 0 none, 1 one
+    division, 2 unit+1 divisions)"""
+    for q in qs:
+        for lay in lays:
+            ts, ms = layout(q, lay)
+            for k in ks:
+                for d in range(1, dmax_q * q + 1):
+                    for off in offs:
+                        for tail in tails:
+                            notes = [[off + i * d, off + (i + 1) * d, i % 2, 1, 1] for i in range(k)]
+                            if tail:
+                                notes.append([off + k * d, off + k * d + (1 if tail == 1 else d + 1), 0, 1, 1])
+                            for ops in orders:
+                                if not sh.take():
+                                    continue
+                                c = mk([[0, q]], ts, ms, notes, ops)
+                                c["untied"] = 1
+                                if valid(c):
+                                    yield c
+
+
+def gen_untied_words(qs, lens, dmax_q, orders, sh):
+    """find_tuplets before tie_notes on contiguous notes of one voice whose durations spell every word of
+    the given lengths over the two-letter alphabet {d, one quarter} (except the all-quarters word), for
+    every d from one division to dmax_q quarters: runs of the value d of every length, interrupted and
+    framed by notes of a plain value"""
+    for q in qs:
+        ts, ms = layout(q, LAYOUTS[0])
+        for d in range(1, dmax_q * q + 1):
+            if d == q:
+                continue
+            for n in lens:
+                for word in itertools.product((d, q), repeat=n):
+                    if d not in word:
+                        continue
+                    for ops in orders:
+                        if not sh.take():
+                            continue
+                        notes, t = [], 0
+                        for i, w in enumerate(word):
+                            notes.append([t, t + w, i % 2, 1, 1])
+                            t += w
+                        c = mk([[0, q]], ts, ms, notes, ops)
+                        c["untied"] = 1
+                        if valid(c):
+                            yield c
+
+
 def gen_linked(qs, span, orders, sh):
     """chains of two or three contiguous notes of one pitch: pre-existing ties (all / first / last link),
     slurs ending and starting on notes that get split, dangling slurs, given symbolic durations"""
@@ -897,6 +955,22 @@ def spaces(tier, seed):
     rq = [1, 2, 3, 4, 6] if quick else [1, 2, 3, 4, 5, 6, 7, 8, 12]
     add("runs", lambda sh: gen_runs(rq, ORDERS[:2] if quick else ORDERS[:4], sh), 1,
         "divs %s; runs of 3..5 equal contiguous notes, unit duration 1..2*divs, offset 0..min(divs,4), closing note none/1/unit+1, 4 layouts" % (rq,))
+    # -- find_tuplets on parts whose notes tie_notes has not split yet
+    uq = [2, 3, 4, 6, 8, 12, 16, 24]
+    add("untied-runs", lambda sh: gen_untied_runs(uq, LAYOUTS[:1], (3, 5), 5, (0,), (0, 1), UNTIED_ORDERS[:2], sh), 1,
+        "find_tuplets before tie_notes (operation orders %s: find_tuplets alone on the bare part, or after add_measures and before "
+        "tie_notes, fill_rests, sanitize_part): divs %s, 4/4; runs of 3 or 5 equal contiguous untyped notes of EVERY unit duration from 1 "
+        "division to 5 quarters (plain, dotted, tuplet values, values needing two to four tied values, values longer than a bar), closing "
+        "note none / 1 division" % (UNTIED_ORDERS[:2], uq))
+    uqw = [1, 2, 3, 4, 5, 6, 7, 8, 12, 16, 24, 32, 48]
+    add("untied-runs-wide",
+        lambda sh: gen_untied_runs(uqw, LAYOUTS[:2], (3, 4, 5, 7, 9), 6, (0, 1), (0, 1, 2), UNTIED_ORDERS, sh), 64,
+        "as untied-runs with divs %s, layouts 44 and 34-24, runs of 3, 4, 5, 7, 9 notes, every unit duration up to 6 quarters, offset 0 or 1 "
+        "division, closing note none / 1 division / unit+1 divisions, operation orders %s" % (uqw, UNTIED_ORDERS))
+    add("untied-words", lambda sh: gen_untied_words([4, 8, 16, 24], (3, 4, 5), 5, ["AUTRS"], sh), 8,
+        "find_tuplets before tie_notes: divs {4,8,16,24}, 4/4; contiguous notes of one voice spelling every word of length 3..5 over "
+        "{d, one quarter} (not all quarters) for every d from 1 division to 5 quarters; ops add_measures, find_tuplets, tie_notes, "
+        "fill_rests, sanitize_part")
     add("linked", lambda sh: gen_linked([1, 2, 4], 10, ORDERS[:3], sh), 16,
         "divs {1,2,4} x 3 layouts x chains of 2..3 contiguous equal-pitch notes with cut points anywhere in 0..10 x pre-existing ties "
         "(all / first / last link) x (no slur, slur over all, two slurs, dangling slurs, given symbolic durations) x 3 operation orders")
